@@ -19,10 +19,10 @@ RULE = ('seeded worlds (2-8 segments, 1-4 channels, some with identical shapes s
         'de-duplicated, _array_equal chunk knob in {1,2,3,100}); per world a seeded schedule of <=60 actions over '
         '<=8 live generators (TdmsFile.data_chunks, channel.data_chunks, iter(channel)) and direct index / slice '
         '/ read_data ops on one lazily opened handle; in 20% of worlds one transient EIO is injected at a seeded read event '
-        'of that handle (the read that meets it may fail, every later read must still be right); in 30% of worlds a second file - a sibling with the same objects, sizes and lengths but another distribution over the segments, or an unrelated file with the same paths - is open at the same time and read in between. distinct = distinct abstract traces [(action, generator '
+        'of that handle - or, in a third of those worlds, the caller is interrupted there (KeyboardInterrupt) and goes on using the handle - (the read that meets it may fail, every later read must still be right); in 30% of worlds a second file - a sibling with the same objects, sizes and lengths but another distribution over the segments, or an unrelated file with the same paths - is open at the same time and read in between. distinct = distinct abstract traces [(action, generator '
         'kind, op kind)...] x world shape; non-trivial = at least one generator was advanced with another '
         'action interleaved between two of its yields')
-EXPECTED_PROBES = ['truncated-file', 'second-file-op', 'eio:op-raised', 'eio:generator-hit', 'scaled-channel', 'read-between-file-chunks', 'two-generators-same-channel', 'abandoned-then-new',
+EXPECTED_PROBES = ['interrupt:op-raised', 'truncated-file', 'second-file-op', 'eio:op-raised', 'eio:generator-hit', 'scaled-channel', 'read-between-file-chunks', 'two-generators-same-channel', 'abandoned-then-new',
                    'index-cache-hit-after-other-read', 'generator-drained-at-end']
 MAX_LIVE = 8
 
@@ -148,7 +148,9 @@ def generate(rng, tier):
             'bystander_first': rng.random() < 0.5,
             'short_seed': rng.getrandbits(32) if rng.random() < 0.2 else None, 'debug_log': rng.random() < 0.05,
             # a transient I/O error on the open handle: the read that meets it may fail, later reads must not be affected
-            'eio_at': rng.randint(5, 200) if rng.random() < 0.2 else None}
+            'eio_at': rng.randint(5, 200) if rng.random() < 0.2 else None,
+            # ... or the caller is interrupted inside that read (KeyboardInterrupt) and goes on using the handle
+            'eio_kind': rng.choice(['eio', 'eio', 'interrupt'])}
 
 
 def strip_scaling(spec):
@@ -240,6 +242,7 @@ def execute(case):
             fulls2 = {p: _lazy.model_full(c, raw_ts) for p, c in w2.chans.items()}
         if eio is not None:
             src.fail_local = {src.local_reads + eio}
+            src.fail_local_interrupt = case.get('eio_kind') == 'interrupt'
         res.backend = case['backend'] if eio is None else 'simstream'
         fulls = {p: _lazy.model_full(c, raw_ts) for p, c in w.chans.items()}
         from .. import scalemodel
@@ -297,7 +300,11 @@ def execute(case):
                         if g[1]['kind'] == 'file':
                             res.probe('read-between-file-chunks')
                     fired0 = st.fs.faults_fired.get('eio', 0)
-                    v = advance(g, w, step, res)
+                    try:
+                        v = advance(g, w, step, res)
+                    except KeyboardInterrupt:
+                        v = None
+                        res.probe('interrupt:generator-hit')
                     if st.fs.faults_fired.get('eio', 0) > fired0:
                         res.probe('eio:generator-hit')
                         g[2] = None       # a generator that met the injected error is finished; nothing more is asked of it
@@ -349,7 +356,11 @@ def execute(case):
                         for k_ in list(other_read_since):
                             other_read_since[k_] = True
                     fired0 = st.fs.faults_fired.get('eio', 0)
-                    v, g_, exc = _lazy.check_op(tf, w, op, full, 'C05.op', 'lazy', keeper=keeper)
+                    try:
+                        v, g_, exc = _lazy.check_op(tf, w, op, full, 'C05.op', 'lazy', keeper=keeper)
+                    except KeyboardInterrupt:
+                        v, g_, exc = None, None, 'KeyboardInterrupt'
+                        res.probe('interrupt:op-raised')
                     if exc == 'OSError' and st.fs.faults_fired.get('eio', 0) > fired0:
                         res.probe('eio:op-raised')
                         v = None          # the read that met the injected error may fail; it must not poison later reads
@@ -369,7 +380,10 @@ def execute(case):
                 for _ in range(remaining + 1):
                     res.steps += 1
                     fired0 = st.fs.faults_fired.get('eio', 0)
-                    v = advance(g, w, 'drain', res)
+                    try:
+                        v = advance(g, w, 'drain', res)
+                    except KeyboardInterrupt:
+                        v = None
                     if st.fs.faults_fired.get('eio', 0) > fired0:
                         res.probe('eio:generator-hit')
                         g[2] = None
